@@ -33,6 +33,7 @@ func init() {
 		"keycheck":    keyCheck,
 		"c06corpus":   c06Corpus,
 		"c03replay":   c03Replay,
+		"c20replay":   c20Replay,
 	}})
 }
 
